@@ -65,7 +65,7 @@ func init() {
 type c16Msg struct {
 	Kind    string `json:"kind"` // hello | data | eof | ping | udp | unknown-data | dup-hello | disconnect
 	Payload string `json:"payload,omitempty"`
-	Style   int    `json:"style"`           // 0 = type, size, body as three writes; 1 = one write; 2 = body split over two writes
+	Style   int    `json:"style"`           // 0 = type, size, body as three writes; 1 = one write; 2 = body split over two writes; 3 = held back: leaves with the next message in one write
 	Raddr   string `json:"raddr,omitempty"` // udp: remote address of this datagram
 }
 
@@ -100,12 +100,20 @@ func genC16(seed uint64, idx int, tier string) *Scenario {
 	sc := &Scenario{Engine: "c16", Params: map[string]interface{}{}}
 	sc.Config = agentBaseConfig
 	nv := r.Range(1, 4)
+	// a sender that buffers: some messages are held back and leave together with the next one in a single
+	// transport write (legal on a byte stream)
+	coalesce := r.Chance(0.4)
 	style := func() int {
 		switch r.Intn(10) {
 		case 0, 1, 2:
 			return 1
 		case 3:
 			return 2
+		case 4, 5:
+			if coalesce {
+				return 3
+			}
+			return 0
 		default:
 			return 0
 		}
@@ -215,11 +223,12 @@ type agentRx struct {
 }
 
 type agentClient struct {
-	c    *libdisco.Conn
-	mu   sync.Mutex
-	rx   []agentRx
-	err  string
-	resp *agent.HandshakeResponse
+	pending []byte // messages held back by a buffering sender
+	c       *libdisco.Conn
+	mu      sync.Mutex
+	rx      []agentRx
+	err     string
+	resp    *agent.HandshakeResponse
 }
 
 func frame(typ int, body []byte) (hdr []byte) {
@@ -238,8 +247,19 @@ func (a *agentClient) send(typ int, m encoding.BinaryMarshaler, style int) error
 		return fmt.Errorf("message too large")
 	}
 	hdr := frame(typ, body)
+	if style == 3 && len(a.pending)+len(body) < 60000 {
+		a.pending = append(append(a.pending, hdr...), body...)
+		return nil
+	}
+	if len(a.pending) > 0 {
+		// everything held back and this message: one write
+		buf := append(append(a.pending, hdr...), body...)
+		a.pending = nil
+		_, err = a.c.Write(buf)
+		return err
+	}
 	switch style {
-	case 1:
+	case 1, 3:
 		_, err = a.c.Write(append(append([]byte{}, hdr...), body...))
 	case 2:
 		a.c.Write(hdr[:1])
@@ -256,6 +276,13 @@ func (a *agentClient) send(typ int, m encoding.BinaryMarshaler, style int) error
 		_, err = a.c.Write(body)
 	}
 	return err
+}
+
+func (a *agentClient) flush() {
+	if len(a.pending) > 0 {
+		a.c.Write(a.pending)
+		a.pending = nil
+	}
 }
 
 func (a *agentClient) readLoop() {
@@ -417,6 +444,7 @@ func runC16(t *testing.T, sc *Scenario) Result {
 				udpFrom[string(pl)] = mustUDPAddr(ra).String()
 			}
 			if discAfter > 0 && msgs >= discAfter {
+				ac.flush()
 				synctest.Wait()
 				ep.Close()
 				disconnected = true
@@ -424,6 +452,9 @@ func runC16(t *testing.T, sc *Scenario) Result {
 			}
 		}
 		w.Play()
+		if !disconnected {
+			ac.flush() // what the buffering sender still holds leaves now
+		}
 		w.Drain()
 	})
 	res.Digest = traceDigest(obs, nil)
